@@ -104,7 +104,16 @@ func balls(b ref.Term) string {
 func RunProg(pc *ProgCase) (results []StepResult, firstDiff int, inconclusive bool) {
 	im := NewImpl()
 	im.Timeout = 10 * time.Second
-	return RunProgOn(im, pc)
+	results, firstDiff, inconclusive = RunProgOn(im, pc)
+	if firstDiff >= 0 && strings.Contains(results[firstDiff].Impl.Err, "$timeout") {
+		// The 10 s limit is a resource guard, not an oracle: under load a query may simply be slow. The whole case is
+		// run once more with a limit two orders of magnitude above anything observed; only then does "still running"
+		// count as an observation.
+		im = NewImpl()
+		im.Timeout = 5 * time.Minute
+		return RunProgOn(im, pc)
+	}
+	return results, firstDiff, inconclusive
 }
 
 func RunProgOn(im *Impl, pc *ProgCase) (results []StepResult, firstDiff int, inconclusive bool) {
